@@ -6,7 +6,7 @@ PROP = dict(
         dict(binary="zext", driver="json", quick=600, thorough=12000, shard=60,
              monitors=["json_all_found: planted URLs returned in the right class", "json_only_found: returned strings occur as values",
                        "error iff rendering damaged", "planted URLs that fasturl rejects are found", "host-only URL is an outlink",
-                       "URLs in white-space padded embedded JSON are found"]),
+                       "json_embedded_padded: URLs in white-space padded embedded JSON are found"]),
         dict(binary="zext", driver="xml", quick=600, thorough=12000, shard=60,
              monitors=["xml_all_found: planted URLs returned in the right class", "xml_only_found: returned strings come from attribute / text nodes",
                        "error iff rendering damaged", "host-only URL is an outlink", "sitemap_detected"]),
